@@ -13,6 +13,7 @@ pub mod ops;
 pub mod outputs;
 pub mod rrdp;
 pub mod rrdp2;
+pub mod crash;
 pub mod rtrsrv;
 pub mod sched;
 pub mod server;
@@ -38,6 +39,7 @@ pub fn all() -> Vec<&'static Check> {
         &rrdp::C29,
         &rrdp2::C25,
         &rrdp2::C24,
+        &crash::C23,
         &worlds2::C39,
         &hist2::C40,
         &worlds2::C41,
